@@ -33,8 +33,10 @@ type FSEvent struct {
 // SimFS is the Config.OpenFile function of a simulated run: virtual names map to real
 // files inside a per-run scratch directory; every call is logged; faults come from Plan.
 type SimFS struct {
-	Dir    string
-	Plan   map[string]FSFault
+	Dir  string
+	Plan map[string]FSFault
+	// Once lists names whose fault fires only on the first matching open.
+	Once   map[string]bool
 	Events []FSEvent
 	Log    *Log
 	// LastOpened is the virtual name of the most recent successful read-only open (used
@@ -49,7 +51,7 @@ func NewSimFS(base string, log *Log) (*SimFS, error) {
 	if err != nil {
 		return nil, err
 	}
-	return &SimFS{Dir: dir, Plan: map[string]FSFault{}, Log: log, Fired: map[FSFault]int{}}, nil
+	return &SimFS{Dir: dir, Plan: map[string]FSFault{}, Once: map[string]bool{}, Log: log, Fired: map[FSFault]int{}}, nil
 }
 
 // Path returns the real path of a virtual name.
@@ -78,6 +80,9 @@ func (f *SimFS) Open(name string, flag int, perm os.FileMode) (*os.File, error) 
 	var file *os.File
 	var err error
 	fault := f.Plan[name]
+	if fault != FaultNone && f.Once[name] && (fault != FaultEMFILE || write) {
+		delete(f.Plan, name)
+	}
 	switch {
 	case fault == FaultENOENT:
 		err = &fs.PathError{Op: "open", Path: name, Err: syscall.ENOENT}
